@@ -1659,7 +1659,7 @@ func (e *clientEngine) Setup(r *Run) {
 	}
 	e.cfgDesc = map[string]any{"manual_clock": e.manual, "clock_skew": e.skew.String(), "no_conn_close": e.noConnClose, "no_retransmit": e.noRetransmit, "fallback": e.hasFallback,
 		"rto": e.rto0.String(), "rate": e.rate.String(), "callers": e.nCallers, "ops_per_caller": e.opsPer, "loss": e.lossPct, "dup": e.dupPct, "corrupt": e.corruptPct,
-		"write_fail": e.writeFailPct, "yield_density": dens, "in_lock_yields": r.Sim.YieldInLock, "pool_mode": r.Sim.PoolMode, "avoid_known": e.avoidKnown, "marathon": e.marathon, "handler_reenters_pct": e.reentPct}
+		"write_fail": e.writeFailPct, "yield_density": dens, "in_lock_yields": r.Sim.YieldInLock, "pool_mode": r.Sim.PoolMode, "marathon": e.marathon, "collector_close_waits": !e.collNoWait, "sched_policy": r.Policy, "handler_reenters_pct": e.reentPct}
 
 	e.conn = &simConn{e: e}
 	r.Sim.Spawn("setup", func() {
